@@ -34,6 +34,9 @@ func genC07(r *rng.R, tier string, steer bool, idx int) *trace.Trace {
 		if tier == "thorough" {
 			files = Corpus(4 << 20)
 		}
+		if lg := linkGroupCorpus(files); len(lg) > 0 && r.Chance(0.3) {
+			files = lg // reference files with new-style groups: the link-graph rewiring applies
+		}
 		base := rng.Pick(r, files)
 		for tries := 0; tries < 20 && HasHugeDataset(base); tries++ {
 			base = rng.Pick(r, files)
@@ -104,6 +107,10 @@ func genMutations(file []byte, n int, seed uint64) []trace.Fault {
 		}
 		out = append(out, trace.Fault{Kind: "btree_ladder", Off: int64(e.Start), Len: int64(e.End - e.Start), Keep: rng.Pick(r, []int{12, 40, 60}), Hex: hex.EncodeToString(ptrs)})
 	}
+	// structural mutation: rewire the link graph of new-style groups (link
+	// messages in a version 2 object header) into hard-link cycles, with and
+	// without a soft link in front, checksum kept valid
+	out = append(out, linkRewires(file, dec, r)...)
 	// extent sweeps: for a few seeded metadata structures, every aligned 8-byte
 	// and 4-byte field position of the header part gets the extreme values a
 	// length/address check must survive (all ones, the sign bit, just below 2^64)
@@ -395,4 +402,176 @@ func shrinkDump(d *e1.Dump) *e1.Dump {
 		d.Objs[i].F64, d.Objs[i].Strs, d.Objs[i].Comp = nil, nil, nil
 	}
 	return d
+}
+
+// linkRewires builds whole-header replacements (as set_bytes faults, so replay
+// needs nothing new) for up to three version 2 object headers that hold link
+// messages: a hard link is pointed back at the group itself (or at the root
+// group), and in a second variant the group's first link message is also
+// turned into a soft link of the same encoded size. The stored checksum is
+// recomputed, so only the cycle guard stands between Open and unbounded
+// recursion.
+func linkRewires(file []byte, dec *specdec.Result, r *rng.R) []trace.Fault {
+	type lmsg struct{ body, size int } // offsets relative to the header start
+	var out []trace.Fault
+	var root uint64
+	rootSet := false
+	for _, e := range dec.Extents {
+		if e.Kind == "ohdr-v2" && !rootSet {
+			root, rootSet = e.Start, true // the decoder visits the root group first
+		}
+	}
+	groups := 0
+	for _, e := range dec.Extents {
+		if e.Kind != "ohdr-v2" || e.End > uint64(len(file)) || e.End-e.Start < 16 || groups >= 3 {
+			continue
+		}
+		h := file[e.Start:e.End]
+		if string(h[:4]) != "OHDR" || h[4] != 2 {
+			continue
+		}
+		fl := h[5]
+		pos := 6
+		if fl&0x20 != 0 {
+			pos += 16
+		}
+		if fl&0x10 != 0 {
+			pos += 4
+		}
+		w := 1 << (fl & 3)
+		if pos+w > len(h) {
+			continue
+		}
+		var csize int
+		for i := 0; i < w; i++ {
+			csize |= int(h[pos+i]) << (8 * uint(i))
+		}
+		pos += w
+		end := pos + csize
+		if csize <= 0 || end+4 > len(h) {
+			continue
+		}
+		var links []lmsg
+		for at := pos; at+4 <= end; {
+			typ, sz := int(h[at]), int(h[at+1])|int(h[at+2])<<8
+			at += 4
+			if fl&0x04 != 0 {
+				at += 2
+			}
+			if at+sz > end {
+				break
+			}
+			if typ == 6 {
+				links = append(links, lmsg{at, sz})
+			}
+			at += sz
+		}
+		// locate the 8-byte address of every hard link message
+		hardAddr := func(m lmsg) (addrAt int, typeAt int, ok bool) {
+			b := h[m.body : m.body+m.size]
+			if len(b) < 4 || b[0] != 1 {
+				return 0, 0, false
+			}
+			lf := b[1]
+			p := 2
+			typeAt = -1
+			if lf&0x08 != 0 {
+				if b[p] != 0 {
+					return 0, 0, false
+				}
+				typeAt = m.body + p
+				p++
+			}
+			if lf&0x04 != 0 {
+				p += 8
+			}
+			if lf&0x10 != 0 {
+				p++
+			}
+			nw := 1 << (lf & 3)
+			if p+nw > len(b) {
+				return 0, 0, false
+			}
+			var nl int
+			for i := 0; i < nw && i < 4; i++ {
+				nl |= int(b[p+i]) << (8 * uint(i))
+			}
+			p += nw + nl
+			if p+8 != len(b) {
+				return 0, 0, false
+			}
+			return m.body + p, typeAt, true
+		}
+		var hard []lmsg
+		for _, m := range links {
+			if _, _, ok := hardAddr(m); ok {
+				hard = append(hard, m)
+			}
+		}
+		if len(hard) == 0 {
+			continue
+		}
+		groups++
+		finish := func(n []byte) trace.Fault {
+			binary.LittleEndian.PutUint32(n[end:], specdec.Lookup3(n[:end], 0))
+			return trace.Fault{Kind: "set_bytes", Off: int64(e.Start), Hex: hex.EncodeToString(n[:end+4])}
+		}
+		targets := []uint64{e.Start}
+		if rootSet && root != e.Start {
+			targets = append(targets, root)
+		}
+		for _, tgt := range targets {
+			// variant 1: the last hard link points back (self-cycle / cycle through the root)
+			n := append([]byte(nil), h...)
+			a, _, _ := hardAddr(hard[len(hard)-1])
+			binary.LittleEndian.PutUint64(n[a:], tgt)
+			out = append(out, finish(n))
+			// variant 2: additionally the first link message becomes a soft link
+			if len(hard) >= 2 && hard[0] == links[0] {
+				n = append([]byte(nil), h...)
+				binary.LittleEndian.PutUint64(n[a:], tgt)
+				m := hard[0]
+				fa, ta, _ := hardAddr(m)
+				if ta >= 0 {
+					n[ta] = 1
+					copy(n[fa:], []byte{6, 0, '/', 'n', 'o', 'p', 'e', 's'})
+				} else {
+					// no link-type byte yet: insert one after the flags, the address
+					// field shrinks to a 2-byte length plus a 5-byte path
+					b := append([]byte(nil), n[m.body:m.body+m.size]...)
+					nb := append([]byte{b[0], b[1] | 0x08, 1}, b[2:len(b)-8]...)
+					nb = append(nb, 5, 0, '/', 'n', 'o', 'p', 'e')
+					copy(n[m.body:], nb)
+				}
+				out = append(out, finish(n))
+			}
+		}
+	}
+	return out
+}
+
+var linkGroupCache map[string]bool
+
+// linkGroupCorpus filters files down to those in which linkRewires finds a
+// group to rewire (decided once per process by the independent decoder).
+func linkGroupCorpus(files []string) []string {
+	if linkGroupCache == nil {
+		linkGroupCache = map[string]bool{}
+		for _, f := range Corpus(4 << 20) {
+			b, err := os.ReadFile(filepath.Join(corpusRoot, f))
+			if err != nil || HasHugeDataset(f) {
+				continue
+			}
+			if len(linkRewires(b, specdec.Decode(b), rng.New(1, "probe"))) > 0 {
+				linkGroupCache[f] = true
+			}
+		}
+	}
+	var out []string
+	for _, f := range files {
+		if linkGroupCache[f] {
+			out = append(out, f)
+		}
+	}
+	return out
 }
